@@ -381,7 +381,7 @@ def generate(rng: random.Random, profile: Optional[Dict[str, Any]] = None) -> Di
         "source": src,
         "groups": groups,
         "entry": "chain" if n_groups > 1 or rng.random() < 0.4 else "fix",
-        "max_iter": rng.choice([1, 1, 1, 2, 5]),
+        "max_iter": rng.choice([1, 1, 1, 2, 3, 5]),
         "permute_check": rng.random() < 0.35,
         "permute_seed": rng.randrange(1 << 30),
         "faults_enabled": faults_enabled,
@@ -468,7 +468,8 @@ def make_rule(group: Dict[str, Any], bound_source: str, pyrefact_core, order: Op
     return rule
 
 
-def run_scheduler(case: Dict[str, Any], orders: Optional[List[List[int]]] = None, max_iter: Optional[int] = None) -> str:
+def run_scheduler(case: Dict[str, Any], orders: Optional[List[List[int]]] = None, max_iter: Optional[int] = None,
+                  undo_log: Optional[List[str]] = None) -> str:
     from pyrefact import core as pcore
     from pyrefact import processing
 
@@ -480,6 +481,17 @@ def run_scheduler(case: Dict[str, Any], orders: Optional[List[List[int]]] = None
         if g.get("decorated"):
             rule = processing.fix(rule, max_iter=1)
         rules.append(rule)
+    if undo_log is not None:
+        # one more rule that depends on the iteration: silent on the original text, and on any other text it
+        # yields a single rewrite of the whole text back to the original - later passes bring earlier texts back
+        def undo_rule(source):
+            undo_log.append(source)
+            if source != src:
+                yield (pcore.Range(0, len(source)), src)
+
+        undo_rule.__name__ = undo_rule.__qualname__ = "rule_undo"
+        rules.append(undo_rule)
+        return processing.chain(rules, max_iter=mi)(src, preserve=frozenset({"x"}))
     if case["entry"] == "fix" and len(rules) == 1:
         r = rules[0]
         r = getattr(r, "_fix_func", r)
@@ -1023,6 +1035,30 @@ def execute(case: Dict[str, Any]) -> Dict[str, Any]:
         log.add("out_multi", C.sha(out2))
         if out2 != out:
             violation = {"class": "multi-iter-differs", "detail": f"max_iter={case['max_iter']} gives a different text than one pass although the rules are silent on other texts"}
+    if violation is None and case.get("max_iter", 1) >= 2 and out != case["source"] and _parses(out) and not ignored_line_spans(case["source"]) and not ignored_line_spans(out):
+        # later passes of one run: with the undo rule pass 2 is one transaction with nothing to conflict with and a
+        # result that parses (the original text), so it must be applied - whatever the run does after that, what it
+        # returns is the result of the last pass it executed: the original after an even number of passes, the
+        # one-pass result after an odd number
+        seen: List[str] = []
+        try:
+            out4 = run_scheduler(case, undo_log=seen)
+        except Exception as exc:  # noqa: BLE001
+            out4 = None
+            violation = {"class": "scheduler-raised", "detail": f"undo run: {type(exc).__name__}: {exc}"}
+        if out4 is not None and seen:
+            stats.inc("undo_runs")
+            stats.inc(f"undo_runs.passes_{len(seen)}")
+            log.add("out_undo", len(seen), C.sha(out4))
+            # Judged only where the run stopped after two of at least three allowed passes: the tool stops early
+            # only when a pass brings an earlier text back, here the original (whole-text replacements are not always
+            # byte exact - the tool re-lays out some statements -, then the run goes on and is merely counted).
+            if case["max_iter"] >= 3 and len(seen) == 2 and seen == [case["source"], out]:
+                stats.inc("undo_runs.judged")
+                if out4 != case["source"]:
+                    violation = {"class": "later-pass-lost", "detail": "the run stopped after its second pass, whose only transaction restores the original text and conflicts with nothing, but what it returned is not that pass's result (a pass whose result parses was discarded)"}
+            elif len(seen) > 2:
+                stats.inc("observed.undo_not_byte_exact")
     if violation is None and case.get("permute_check"):
         # yield-order independence: only claimed where precedence is specified by ids
         if all(y["txn"] is not None for g in case["groups"] for y in g["yields"]):
